@@ -545,6 +545,14 @@ fn exports_roundtrip(unit: &compiler::artifact::InterfaceUnit, json: &str) -> (S
     let e = &unit.exports;
     let entries = e.type_env.enums.len() + e.type_env.structs.len() + e.type_env.extern_types.len() + e.trait_env.trait_defs.len()
         + e.trait_env.trait_impls.len() + e.trait_env.inherent_impls.len() + e.value_env.funcs.len() + e.value_env.extern_funcs.len();
+    // entries of the package itself (every package's exports also carry the builtins of `GlobalTypeEnv::new()`)
+    static BUILTINS: std::sync::OnceLock<usize> = std::sync::OnceLock::new();
+    let nb = *BUILTINS.get_or_init(|| {
+        let g = compiler::env::GlobalTypeEnv::new();
+        g.type_env.enums.len() + g.type_env.structs.len() + g.type_env.extern_types.len() + g.trait_env.trait_defs.len()
+            + g.trait_env.trait_impls.len() + g.trait_env.inherent_impls.len() + g.value_env.funcs.len() + g.value_env.extern_funcs.len()
+    });
+    let entries = entries.saturating_sub(nb);
     let back: compiler::artifact::InterfaceUnit = match serde_json::from_str(json) {
         Ok(u) => u,
         Err(err) => return (format!("parse-error:{}", err.to_string().chars().take(80).collect::<String>()), entries),
